@@ -32,7 +32,11 @@ func within(x, lo, hi math.LegacyDec) bool {
 func slack(e *env.Env, v int) math.LegacyDec {
 	asset, _ := e.K.GetAssetByDenom(e.Ctx, Denoms[0])
 	av := AV(e, Vals[v])
-	price := av.TotalTokensWithAsset(asset).Quo(av.TotalDelegationSharesWithDenom(Denoms[0]))
+	tds := av.TotalDelegationSharesWithDenom(Denoms[0])
+	if tds.IsZero() {
+		return math.LegacyOneDec()
+	}
+	price := av.TotalTokensWithAsset(asset).Quo(tds)
 	return math.LegacyOneDec().Add(types.Rounder.Mul(price))
 }
 
@@ -40,7 +44,8 @@ func slack(e *env.Env, v int) math.LegacyDec {
 // changes by the requested amount (ideal-Q: the repository's data flow computes the right
 // quantities for all real-valued inputs; rounding is covered by the leaf lemmas).
 func c04(id string, op Op, ps []Pos) {
-	st := Build(ps, Opts{})
+	// quick tier: withdrawals are checked at validator-share price 1 (delegator-share prices symbolic)
+	st := Build(ps, Opts{ValPriceOne: op != OpDelegate && !nd.Thorough()})
 	e := st.E
 	all := []Pos{{0, 0, 0}, {1, 0, 0}, {0, 1, 0}, {1, 1, 0}}
 	var pre []math.LegacyDec
@@ -92,6 +97,7 @@ func H_C04_alg_redelegate_Q() { c04("C04.alg.redelegate", OpRedelegate, shapeAct
 // most the token value reported for the shares that were removed.
 func H_C04_cap() {
 	id := "C04.cap"
+	nd.UFWindow(24) // value(removed shares) <= value(all shares) is a monotonicity fact
 	op := nd.Choice("op", 2)
 	st := Build(shapeActor("shape"), Opts{})
 	e := st.E
